@@ -316,10 +316,15 @@ class ClauseCtx:
             return self._wrap(v, ct)
         if name in f.logical:
             return f.logical[name]
+        if name in e.tu.fdecls:
+            return FuncPtr(name)
         raise ClauseError('unknown name %r in clause (renamed variable?)' % name)
 
     def is_ptr(self, v):
         return isinstance(v, Ptr)
+
+    def is_funcptr(self, v):
+        return isinstance(v, FuncPtr)
 
     def null(self):
         return NULL
